@@ -167,9 +167,9 @@ INV = re.compile(r"^f[pb]\d*_inv(_(?!sim)\w+)?$")
 INV_SIM = re.compile(r"^f[pb]\d*_inv_sim$")
 IS_ZERO = re.compile(r"^f[pb]\d*_is_zero$")
 COPY_SEC = re.compile(r"^(f[pb]\d*|dv)_copy_sec$")
-# (function, inverted variable) -> reason
+# (function, field family of the inversion) -> reason
 INV_OK = {
-    ("eb_map", "t0"): "t0 = x^2 with x the (incremented) message digest: a zero needs a preimage of the all-zero digest; no input can be exhibited",
+    ("eb_map", "fb"): "t0 = x^2 with x the (incremented) message digest: a zero needs a preimage of the all-zero digest; no input can be exhibited",
 }
 
 
@@ -243,9 +243,9 @@ def rule_inv_guard(ctx, prog, chk):
                 base = fn.name.split("__")[-1]
                 if ok:
                     chk.ok("INV-GUARD", fn, vn, "tested for zero (branch or masked replacement keyed on its own zero test) since it was last computed", line=nd.line())
-                elif (base, vn) in INV_OK:
-                    used.add((base, vn))
-                    chk.ok("INV-GUARD", fn, vn, "reviewed exception: " + INV_OK[(base, vn)], line=nd.line())
+                elif (base, re.match(r"^(f[pb]\d*)_", c[1]).group(1)) in INV_OK:
+                    used.add((base, re.match(r"^(f[pb]\d*)_", c[1]).group(1)))
+                    chk.ok("INV-GUARD", fn, vn, "reviewed exception: " + INV_OK[(base, re.match(r"^(f[pb]\d*)_", c[1]).group(1))], line=nd.line())
                 else:
                     chk.fail("INV-GUARD", fn, vn, "`%s` inverts `%s`, which has not been tested for zero since it was last computed (a zero test of another value, or a masked replacement keyed "
                              "on another flag, does not count): for the exceptional inputs of the map the inversion of zero is an error instead of a point" % (fn.fmt(c)[:40], vn), line=nd.line())
